@@ -66,6 +66,7 @@ type Contract struct {
 	TrustedEns []*Clause
 	Allocs     []string
 	AtCalls    []*Clause // Var holds the callee name
+	AssumeAfter []*Clause // explicit, listed assumptions about the result of one call site (Var: callee or callee#n)
 	Arith      bool
 }
 
@@ -375,6 +376,19 @@ func (sp *Spec) LoadFile(path, prefix string, external bool) error {
 				return fmt.Errorf("%s: bad at_call clause", where)
 			}
 			cur.AtCalls = append(cur.AtCalls, &Clause{Kind: "at_call", Var: callee, Label: m[2], Props: parseProps(m[3]), Expr: m[4], Line: where})
+		case "assume_after":
+			// assume_after CALLEE[#n] [label]: expr   -- an explicit assumption about the results of that call (listed in the evidence)
+			rest := strings.TrimSpace(strings.TrimPrefix(line, "assume_after"))
+			sp1 := strings.IndexAny(rest, " \t")
+			if sp1 < 0 {
+				return fmt.Errorf("%s: bad assume_after", where)
+			}
+			callee := rest[:sp1]
+			m := reClause.FindStringSubmatch("requires " + strings.TrimSpace(rest[sp1:]))
+			if m == nil {
+				return fmt.Errorf("%s: bad assume_after clause", where)
+			}
+			cur.AssumeAfter = append(cur.AssumeAfter, &Clause{Kind: "assume_after", Var: callee, Label: m[2], Props: parseProps(m[3]), Expr: m[4], Line: where})
 		case "requires", "ensures", "exit_requires", "trusted_ensures":
 			m := reClause.FindStringSubmatch(line)
 			if m == nil {
